@@ -69,6 +69,8 @@ fn decode_feed(c: &mut Cur) -> Feed {
     let ctor = match c.byte() {
         0 => Ctor::FromRead,
         1 => Ctor::Boxed,
+        200 => Ctor::BufReader(8192),
+        201 => Ctor::BufReader(20000),
         n => Ctor::BufReader((n as usize - 1).min(64)),
     };
     let n = (c.byte() % 8) as usize;
@@ -76,6 +78,8 @@ fn decode_feed(c: &mut Cur) -> Feed {
     for _ in 0..n {
         steps.push(match c.byte() {
             0 => Step::Intr,
+            254 => Step::IntrBurst(70),
+            253 => Step::IntrBurst(1000),
             255 => Step::Give(u32::MAX),
             k => Step::Give(k as u32),
         });
@@ -113,8 +117,9 @@ pub fn encode_feed(f: &Feed, out: &mut Vec<u8>) {
     for s in steps {
         out.push(match s {
             Step::Intr => 0,
+            Step::IntrBurst(n) => if *n > 500 { 253 } else { 254 },
             Step::Give(u32::MAX) => 255,
-            Step::Give(n) => (*n).clamp(1, 254) as u8,
+            Step::Give(n) => (*n).clamp(1, 252) as u8,
         });
     }
 }
@@ -168,7 +173,13 @@ pub fn decode_history(data: &[u8]) -> History {
                 add: (a >> 3) % 41,
             },
             2 => Op::RequestByte,
-            3 | 4 => Op::RequestByteAt(a % 81),
+            3 => Op::RequestByteAt((a % 81) as u64),
+            4 => match a % 16 {
+                0 => Op::RequestByteAt(u64::MAX - (a >> 4) as u64 % 4),
+                1 => Op::RequestByteAt(1 << 63),
+                2 => Op::RequestHuge((a >> 4) % 4),
+                _ => Op::RequestByteAt((a % 81) as u64),
+            },
             5 => Op::RequestMore,
             6 | 7 | 8 => Op::Advance(a),
             9 => Op::AdvanceWithBuf(a),
@@ -230,7 +241,8 @@ pub fn decode_whistory(data: &[u8]) -> WHistory {
             _ => SinkStep::Panic,
         });
     }
-    let content_seed = c.byte() as u64;
+    let seed_byte = c.byte();
+    let content_seed = (seed_byte & 0x7f) as u64;
     let mut ops = vec![];
     while c.i + 4 <= data.len() && ops.len() < 60 {
         let k = c.byte();
@@ -281,6 +293,7 @@ pub fn decode_whistory(data: &[u8]) -> WHistory {
         ops,
         sink: SinkScript { steps, tail_accept },
         content_seed,
+        unwind_drop: seed_byte & 0x80 != 0,
     }
 }
 
